@@ -220,8 +220,9 @@ func (s *SencBox) ParseReadBox(perSampleIVSize byte, saiz *SaizBox) error {
 			s.perSampleIVSize = perSampleIVSize
 		}
 
-		if uint64(perSampleIVSize)*uint64(s.SampleCount) > uint64(nrBytesLeft) {
-			return fmt.Errorf("senc: %d samples with perSampleIVSize %d do not fit in %d bytes",
+		// The IVs must fill the data exactly (the sub-sample path refuses left-over bytes as well)
+		if uint64(perSampleIVSize)*uint64(s.SampleCount) != uint64(nrBytesLeft) {
+			return fmt.Errorf("senc: %d samples with perSampleIVSize %d do not match %d bytes",
 				s.SampleCount, perSampleIVSize, nrBytesLeft)
 		}
 		nrIVs := uint32(0) // No capacity needed if there are no IVs (sampleCount is not trusted)
